@@ -22,7 +22,10 @@ COMPS = ["superadditive", "superadditive_cached"]
 
 
 def struct_hash(n):
-    a, b, c = impl_bounds._get_sub_super_coalition_structure(n)
+    fn = getattr(impl_bounds, "_get_sub_super_coalition_structure", None)
+    if fn is None:          # the memo lives under another name: only the behavioural part of the statement can be judged
+        return None
+    a, b, c = fn(n)
     h = hashlib.sha256()
     h.update(np.ascontiguousarray(a).tobytes())
     h.update(np.sort(np.ascontiguousarray(b)).tobytes())   # argsort order within a size class is not specified
@@ -121,7 +124,12 @@ def run(ctx, proof):
     for n in ([1, 2, 3, 4, 5] if ctx.quick else [1, 2, 3, 4, 5, 6, 7]):
         out = run_driver([f"structure {n}"])[0]
         rows_m = [[int(x) for x in r.split()] for r in out.split("|") if r.strip()]
-        a, b, c = impl_bounds._get_sub_super_coalition_structure(n)
+        fn = getattr(impl_bounds, "_get_sub_super_coalition_structure", None)
+        if fn is None:
+            mism.append(({"comp": "structure", "n": n, "v": [], "K": [], "stale": None, "stream": "exact", "src": "structure"},
+                         "the memoised relation structure is no longer found under its anchored name; Structure.v is not tied to it"))
+            break
+        a, b, c = fn(n)
         rows_i = [[int(x) for x in row] for row in c]
         ctx.evaluations += 1
         if rows_m != rows_i or list(map(int, a)) != list(range(2 ** n)) or \
